@@ -11,7 +11,7 @@ CFG = {
     "rule": "Structures: list.Queue / list.Stack (block sizes 1,2,3,4,5,64; random also 7,8) and list.SoftQueue, int payloads, "
             "EqualFunc in {==, equal mod 3, <= (asymmetric: pins the argument order equal(stored, searched); Contains differences under it are kind=fidelity)}. "
             "Every battery also takes a representation snapshot through the verif hook (cursors, blocks incl. stale cells, stale rear pointer), compared as kind=fidelity. "
-            "exhaustive: every history of exactly n mutators (quick n=10, thorough n=13) over {add a fresh value, remove} with the full observer battery "
+            "exhaustive: every history of exactly n mutators (quick n=11, thorough n=13) over {add a fresh value, remove} with the full observer battery "
             "(Size, IsEmpty, Peek, Contains of 0 = the zero value of unwritten cells, of every value added so far and of the next one; Values for the soft queue) "
             "after EVERY step (so every shorter history and every interleaving of observers is covered as a prefix), then drained past empty and refilled; "
             "dup: every history of n mutators (5/7) over {add 0, add 1, add 2, remove} under each EqualFunc with the battery after every step; "
